@@ -81,11 +81,18 @@ class Env:
         self.placeholders: dict = {}  # literal text -> z3 Int (symbolic constants written as reserved literals)
         self.last_result = None
 
+    current = ("DB1", "S1")  # session context used to resolve partly qualified names
+
     def table(self, t: exp.Table) -> Table:
+        """Tables are registered either under a bare name (one table of that name exists) or under DB.SCHEMA.NAME (same-named tables in
+        several schemas); a reference resolves like the engine does: missing parts come from the session context."""
         name = t.name.upper()
-        if name not in self.tables:
-            raise Unsupported(f"unknown table {name}")
-        return self.tables[name]
+        fq = f"{(t.catalog or self.current[0])}.{(t.db or self.current[1])}.{name}".upper()
+        if fq in self.tables:
+            return self.tables[fq]
+        if name in self.tables:
+            return self.tables[name]
+        raise Unsupported(f"unknown table {fq}")
 
 
 # ---------------------------------------------------------------------------------------------- expressions
